@@ -21,7 +21,7 @@ where
     pub fn new(listener: Arc<Mutex<T>>) -> Self {
         Self {
             parser: Parser::new(listener),
-            utf8_decoder: UTF_8.new_decoder_with_bom_removal(),
+            utf8_decoder: UTF_8.new_decoder_without_bom_handling(),
         }
     }
 
